@@ -198,6 +198,7 @@ def st_origins(ctx: Ctx):
             "fresh": st.booleans(),
             "clear_registry": st.sampled_from([False, False, True]),
             "tuple_backed": st.sampled_from([False, False, True]),
+            "look": st.sampled_from([0, 0, 0, 255, 170, 85]),
         }
     )
 
@@ -254,7 +255,7 @@ def _resolve(model: list, operands_specs: list[list]) -> list:
 
 
 def _src_fqn(i: int) -> str:
-    return f"mem://s{i}" if i < 3 else "urn:plain:s3"
+    return f"mem://s{i}" if i < 3 else ("urn:plain:s3" if i == 3 else "mem://s0")
 
 
 def _pos_fqn(spec: list) -> str:
@@ -321,6 +322,26 @@ def check_origins(data: dict, lab: Labels) -> None:
     specs = data["ops"]
     sources = og.make_sources()
     fresh = bool(data.get("fresh"))
+    look = data.get("look", 0)
+    if look:
+        # a fifth source that is not equal to source 0 but shares its URI (another source type): members
+        # drawn over source 0 are moved to it where the mask says so
+        from pyoak.origin import Source
+
+        sources.append(Source(source_uri="mem://s0", source_type="lookalike"))
+        fresh = False
+        counter = [0]
+
+        def move(m: list) -> list:
+            if m[0] in ("gen", "whole", "xml") and m[1] == 0:
+                counter[0] += 1
+                if look >> (counter[0] % 8) & 1:
+                    return [m[0], 4, *m[2:]]
+            return m
+
+        specs = [["multi", [move(m) for m in sp[1]]] if sp[0] == "multi" else move(sp) for sp in specs]
+        lab.tag_if(any(m[0] != "no" and m[0] != "multi" and m[1] == 4 for sp in specs for m in (_members(sp) or [])),
+                   "source-sharing-the-uri-of-another")
     lab.tag_if(fresh, "distinct-equal-source-objects")
     objs = [og.build_origin(s, sources, fresh) for s in specs]
     if data.get("tuple_backed"):
